@@ -1,4 +1,8 @@
 """C09 - sets stay sorted and unique and answer like std::set."""
+import json
+import os
+
+import vlib
 from pipes import set as setpipe
 
 
@@ -6,6 +10,9 @@ def run(tier, rep):
     tv, st = setpipe.pipeline(tier, rep)
     # life-* deviations are the business of C03 (same traces, different monitor)
     rep.devs = [d for d in rep.devs if not d["kind"].startswith("life")]
+    # debugging aid only (never read by a check): the raw deviations of this run
+    with open(os.path.join(vlib.workdir("set"), "devs_%s.json" % tier), "w") as f:
+        json.dump(rep.devs, f)
     rep.assumptions += [
         "keys are small integers; int and one non-trivial element type (Tracked) stand for every Key",
         "comparators: less<Key>, greater<Key>, less<void> (transparent, probed with a non-key type)",
